@@ -141,10 +141,12 @@ const PORTS: &[u16] = &[0, 1, 9, 10, 80, 99, 100, 443, 999, 1000, 9999, 10000, 6
 const OCTETS: &[u8] = &[0, 1, 9, 10, 99, 100, 127, 199, 200, 249, 250, 255];
 
 pub fn gen_port(rng: &mut Rng) -> u16 {
-    if rng.chance(2, 3) {
-        *rng.pick(PORTS)
-    } else {
-        rng.below(65536) as u16
+    match rng.below(6) {
+        0..=2 => *rng.pick(PORTS),
+        // systematic sweep: over a batch every 16-bit value occurs, in every port position
+        3 => (rng.index % 65536) as u16,
+        4 => ((rng.index / 5).wrapping_mul(40503) % 65536) as u16,
+        _ => rng.below(65536) as u16,
     }
 }
 
@@ -268,7 +270,15 @@ pub fn ipv6_text(rng: &mut Rng, g: [u16; 8]) -> String {
 }
 
 const FREE_ALPHABET: &[u8] = b"abcXYZ019 \n\0.:\t-_/ ";
-const MULTIBYTE: &[&str] = &["\u{e9}", "\u{20ac}", "\u{1f600}", "\u{ff10}", "\u{85}"];
+const MULTIBYTE: &[&str] = &[
+    "\u{e9}", "\u{20ac}", "\u{1f600}", "\u{ff10}", "\u{85}", "\u{feff}", "\u{2028}", "\u{a0}",
+];
+/// Bytes one bit away from the delimiters CR, LF and SP (and a few other control bytes): the
+/// values a hand-rolled scanner is most likely to confuse with a delimiter.
+const NEAR_DELIMITERS: &[u8] = &[
+    0x0c, 0x0f, 0x09, 0x05, 0x1d, 0x2d, 0x4d, 0x0b, 0x08, 0x0e, 0x02, 0x1a, 0x2a, 0x4a, 0x21, 0x22,
+    0x24, 0x28, 0x30, 0x60, 0x00, 0x01, 0x7f, 0x1b,
+];
 
 pub fn gen_free_text(rng: &mut Rng, max: usize, ascii_only: bool) -> String {
     let len = match rng.below(8) {
@@ -305,7 +315,16 @@ pub fn gen_free_text(rng: &mut Rng, max: usize, ascii_only: bool) -> String {
                 continue;
             }
         }
-        s.push(*rng.pick(FREE_ALPHABET) as char);
+        if rng.chance(1, 10) {
+            s.push(*rng.pick(NEAR_DELIMITERS) as char);
+        } else {
+            s.push(*rng.pick(FREE_ALPHABET) as char);
+        }
+    }
+    // the byte right before the line's CR is where a scanner's off-by-one shows
+    if !s.is_empty() && s.is_char_boundary(s.len() - 1) && rng.chance(1, 5) {
+        s.pop();
+        s.push(*rng.pick(NEAR_DELIMITERS) as char);
     }
     s
 }
@@ -526,6 +545,19 @@ pub fn gen_v2_spec(rng: &mut Rng, big_ok: bool) -> V2Spec {
         1 => vec![0xffu8; fsize],
         _ => rng.bytes(fsize),
     };
+    if fam == 2 && rng.chance(1, 4) {
+        // IPv4-mapped IPv6 addresses (::ffff:a.b.c.d), for one or both ends
+        let both = rng.chance(2, 3);
+        for (k, base) in [(0usize, 0usize), (1, 16)] {
+            if both || k == rng.below(2) {
+                for b in addr[base..base + 10].iter_mut() {
+                    *b = 0;
+                }
+                addr[base + 10] = 0xff;
+                addr[base + 11] = 0xff;
+            }
+        }
+    }
     if fam == 3 && rng.chance(1, 2) {
         // path-looking unix addresses
         addr = vec![0u8; 216];
@@ -538,6 +570,8 @@ pub fn gen_v2_spec(rng: &mut Rng, big_ok: bool) -> V2Spec {
     // total payload target
     let target = if big_ok {
         match rng.below(24) {
+            // systematic sweep of the total payload length across a batch
+            6 | 7 => (rng.index % 65536) as usize,
             0 => 65535,
             1 => 65534,
             2 => rng.range(4096, 65535),
@@ -554,6 +588,9 @@ pub fn gen_v2_spec(rng: &mut Rng, big_ok: bool) -> V2Spec {
     if fam == 0 && rng.chance(1, 2) {
         // unspecified family: the whole payload is opaque
         addr = rng.bytes(remaining);
+        if rng.chance(1, 4) {
+            embed_interesting(rng, &mut addr);
+        }
         remaining = 0;
     }
     let n_tlvs = match rng.below(6) {
@@ -566,17 +603,29 @@ pub fn gen_v2_spec(rng: &mut Rng, big_ok: bool) -> V2Spec {
         if remaining < 3 {
             break;
         }
+        if rng.chance(1, 4) {
+            // a TLV as deployed proxies really send it
+            let (t, v) = realistic_tlv(rng);
+            if v.len() + 3 <= remaining {
+                remaining -= 3 + v.len();
+                tlvs.push((t, v));
+                continue;
+            }
+        }
         let l = gen_tlv_value_len(rng, remaining - 3);
         let t = if rng.chance(3, 4) {
             *rng.pick(TLV_TYPES)
         } else {
             rng.byte()
         };
-        let v = if rng.chance(1, 4) {
+        let mut v = if rng.chance(1, 4) {
             vec![rng.byte(); l]
         } else {
             rng.bytes(l)
         };
+        if rng.chance(1, 8) {
+            embed_interesting(rng, &mut v);
+        }
         remaining -= 3 + l;
         tlvs.push((t, v));
     }
@@ -597,6 +646,67 @@ pub fn gen_v2_spec(rng: &mut Rng, big_ok: bool) -> V2Spec {
         tail,
         declared: None,
     }
+}
+
+/// TLVs with the types and value shapes that HAProxy, AWS, Azure and GCP front ends emit.
+pub fn realistic_tlv(rng: &mut Rng) -> (u8, Vec<u8>) {
+    match rng.below(12) {
+        0 => (0x01, b"h2".to_vec()),
+        1 => (0x01, b"http/1.1".to_vec()),
+        2 => (0x02, b"example.com".to_vec()),
+        3 => (0x03, rng.bytes(4)),
+        4 => {
+            let n = rng.range(0, 12);
+            (0x04, vec![0u8; n])
+        }
+        5 => (0x05, rng.bytes(16)),
+        6 => {
+            // PP2_TYPE_SSL: client flags, verify, nested sub-TLVs
+            let mut v = vec![0x01, 0, 0, 0, 0];
+            v.extend(tlv_to_bytes(0x21, b"TLSv1.3"));
+            v.extend(tlv_to_bytes(0x22, b"client.example"));
+            (0x20, v)
+        }
+        7 => (0x30, b"netns-blue".to_vec()),
+        8 => {
+            // PP2_TYPE_AWS, sub-type 1 = VPC endpoint id
+            let mut v = vec![0x01];
+            v.extend_from_slice(b"vpce-08d2bf15fac5001c9");
+            (0xEA, v)
+        }
+        9 => {
+            // PP2_TYPE_AZURE, sub-type 1 = private endpoint link id (u32 LE)
+            let mut v = vec![0x01];
+            v.extend(rng.bytes(4));
+            (0xEE, v)
+        }
+        10 => (0xE0, rng.bytes(8)),
+        _ => (0x04, Vec::new()),
+    }
+}
+
+/// Overwrite the start (or the end) of a value with bytes that mean something elsewhere in the
+/// protocol: a v2 signature, the start of a text header, a line break, a run of NULs.
+pub fn embed_interesting(rng: &mut Rng, v: &mut Vec<u8>) {
+    let pieces: [&[u8]; 7] = [
+        V2_SIG,
+        b"\r\n\r\n\0\r\nQUIT\n\x21\x11\x00\x0c",
+        b"\nPROXY ",
+        b"\r\nPROXY TCP4 1.2.3.4 5.6.7.8 1 2\r\n",
+        b"PROXY UNKNOWN\r\n",
+        b"\0\0\0\0",
+        b"\r\n",
+    ];
+    let p: &[u8] = *rng.pick(&pieces);
+    if p.len() > v.len() {
+        return;
+    }
+    let at = match rng.below(3) {
+        0 => 0,
+        1 => v.len() - p.len(),
+        _ => rng.range(0, v.len() - p.len()),
+    };
+    v[at..at + p.len()].copy_from_slice(p);
 }
 
 pub fn assemble_v2(spec: &V2Spec) -> Wire {
@@ -856,10 +966,21 @@ pub fn gen_trailer(rng: &mut Rng, header: &Wire) -> (Vec<u8>, &'static str) {
             let k = rng.range(1, n.min(20));
             (header.bytes[n - k..].to_vec(), "own_tail")
         }
-        11 => (
-            "\u{20ac}\u{e9}trailer".as_bytes().to_vec(),
-            "multibyte",
-        ),
+        11 => match rng.below(3) {
+            0 => {
+                let n = rng.range(1, 40);
+                (vec![0u8; n], "nul_run")
+            }
+            1 => {
+                let n = rng.range(100, 300);
+                let mut v = Vec::with_capacity(n);
+                for _ in 0..n {
+                    v.push(*rng.pick(b"abcdefghij 0123456789\n"));
+                }
+                (v, "long_payload")
+            }
+            _ => ("\u{20ac}\u{e9}trailer".as_bytes().to_vec(), "multibyte"),
+        },
         12 => (vec![0xff, 0xfe, 0x80, 0xc3], "invalid_utf8"),
         _ => {
             let n = rng.range(1, 64);
@@ -897,7 +1018,17 @@ pub fn adversarial_trailers(rng: &mut Rng, header: &[u8]) -> Vec<Vec<u8>> {
 
 /// A peer that is not speaking PROXY (correctly) at all.
 pub fn gen_junk(rng: &mut Rng) -> (Vec<u8>, &'static str) {
-    match rng.below(10) {
+    match rng.below(11) {
+        10 => {
+            // an unterminated, so-far-valid text header followed by NUL bytes (a zero-filled
+            // read buffer handed over whole)
+            let w = gen_v1(rng, true);
+            let k = rng.range(0, w.bytes.len());
+            let mut v = w.bytes[..k].to_vec();
+            let n = rng.range(1, 8);
+            v.extend(std::iter::repeat(0u8).take(n));
+            (v, "text_prefix_then_nuls")
+        }
         9 => {
             // long valid UTF-8 text, dense in multi-byte characters, 90..320 bytes, with an
             // optional well-formed line in front and an optional late CR
